@@ -136,3 +136,14 @@ pub fn plan(property: &str) -> Option<Plan> {
         real: REAL.to_vec(),
     })
 }
+
+/// Scenario generation plus the per-run switches every engine shares.
+pub fn generate(engine: &dyn crate::runner::Engine, profile: &str, seed: u64, tier: &str) -> crate::scenario::Scenario {
+    let mut sc = engine.generate(profile, seed, tier);
+    // half of the runs model parking_lot's writer preference (readers queue behind a waiting
+    // writer), the other half let readers overtake it
+    if crate::tape::Tape::fresh(crate::tape::mix(seed, 0x7277)).chance(1, 2) {
+        sc.sim.buggify.insert("rwlock.writer_preference".into(), 1000);
+    }
+    sc
+}
